@@ -322,3 +322,37 @@ def retype(s, how):
             return s
         return [retype(c, how) for c in s]
     return s
+
+
+def twin_how(spec):
+    """Deterministic choice (from the case itself) of whether a retyped twin of the
+    case's expression is run through the code under test first: None | i2f | f2i."""
+    import json
+    import zlib
+    k = zlib.crc32(json.dumps(spec, sort_keys=True, default=repr).encode()) % 5
+    return {0: "i2f", 1: "f2i"}.get(k)
+
+
+def twin_first(spec_expr, how, *fns):
+    """Apply every fn to the retyped twin (4 -> 4.0 / 2.0 -> 2) of an expression spec,
+    in this process, before the case proper; outcomes and exceptions are ignored.  On a
+    library without process-wide state keyed by == this changes nothing.  -> ran?"""
+    if not how:
+        return False
+    t = retype(spec_expr, how)
+    if t == spec_expr:
+        return False
+    try:
+        e = build(t)
+    except RecursionError:
+        raise
+    except Exception:
+        return False
+    for fn in fns:
+        try:
+            fn(e)
+        except RecursionError:
+            raise
+        except Exception:
+            pass
+    return True
